@@ -247,6 +247,13 @@ fn do_step(st: &mut State, step: &Value, want: &Want, prev: &Vec<Value>) -> Valu
             let o = calc.get_time_offset();
             json!({"outcome": "returned", "ret": r.is_ok(), "tz": {"name": o.name, "off": o.offset}})
         }
+        "set_date_rule" => {
+            // the default date patterns of the language once more: registering them again changes nothing
+            *dirty = true;
+            let pats: Vec<String> = step["patterns"].as_array().map(|a| a.iter().map(|x| x.as_str().unwrap_or("").to_string()).collect()).unwrap_or_default();
+            calc.set_date_rule(s(step, "lang"), pats);
+            json!({"outcome": "returned"})
+        }
         "get_tz" => {
             let o = calc.get_time_offset();
             json!({"outcome": "returned", "tz": {"name": o.name, "off": o.offset}})
